@@ -385,7 +385,11 @@ func Main(corpusJSON string) {
 				b2, b3 = 2, 1
 			}
 			cases = append(cases, e1.Case{Sc: named(concurrentScenario(f.If, f, 2, 0), pol, b2), Opt: vm.Options{Bound: b2, StrictDev: true, Policy: pol}, Budget: budget, MinOutcomes: 1})
-			cases = append(cases, e1.Case{Sc: named(concurrentScenario(f.If, f, 2, 0), pol, 3), Opt: vm.Options{Bound: 3, StrictDev: true, Policy: pol, Prune: true}, Budget: budget, MinOutcomes: 1})
+			deep := 2
+			if run.Thorough() {
+				deep = 3
+			}
+			cases = append(cases, e1.Case{Sc: named(concurrentScenario(f.If, f, 2, 0), pol, deep+10), Opt: vm.Options{Bound: deep, StrictDev: true, Policy: pol, Prune: true}, Budget: budget, MinOutcomes: 1})
 			cases = append(cases, e1.Case{Sc: named(concurrentScenario(f.If, f, 3, 1), pol, b3), Opt: vm.Options{Bound: b3, StrictDev: true, Policy: pol}, Budget: budget, MinOutcomes: 1})
 		}
 	}
